@@ -1089,12 +1089,15 @@ pub fn write_history(ctx: &Ctx, revisions: &[Revision], opts: &WriterOpts) -> Wr
                 let m1 = bytes_needed(rows.iter().map(|r| r.1).max().unwrap_or(0));
                 let max3 = rows.iter().map(|r| r.2).max().unwrap_or(0);
                 let m2 = if max3 == 0 { 0 } else { bytes_needed(max3) };
-                let w0 = 1 + e.d(2, "w0");
-                let w1 = m1 + e.d((4usize.saturating_sub(m1) + 1) as u64, "w1");
-                let w2 = m2 + e.d((2 - m2 + 1) as u64, "w2");
-                ctx.count(["w0=1", "w0=2"][w0 - 1]);
-                ctx.count(["w1=1", "w1=2", "w1=3", "w1=4"][w1.min(4) - 1]);
-                ctx.count(["w2=0", "w2=1", "w2=2"][w2]);
+                // ISO 32000-1 7.5.8.2: a type field of width 0 means "type 1" for every entry; fields may be
+                // wider than needed (leading zero bytes), up to 8 bytes here
+                let all_type1 = rows.iter().all(|r| r.0 == 1);
+                let w0 = if all_type1 && e.d(3, "w0-zero") == 2 { 0 } else { 1 + e.d(2, "w0") };
+                let w1 = if e.d(6, "w1-wide") == 5 { 5 + e.d(4, "w1-wide-n") } else { m1 + e.d((4usize.saturating_sub(m1) + 1) as u64, "w1") };
+                let w2 = if e.d(8, "w2-wide") == 7 { 3 + e.d(2, "w2-wide-n") } else { m2 + e.d((2 - m2 + 1) as u64, "w2") };
+                ctx.count(["w0=0", "w0=1", "w0=2"][w0]);
+                ctx.count(["w1=1", "w1=2", "w1=3", "w1=4", "w1=5..8"][w1.min(5) - 1]);
+                ctx.count(["w2=0", "w2=1", "w2=2", "w2=3..4"][w2.min(3)]);
                 let mut data = Vec::new();
                 for r in &rows {
                     for (v, w) in [(r.0, w0), (r.1, w1), (r.2, w2)] {
